@@ -33,6 +33,10 @@ type ReplayFile struct {
 	Minimised bool     `json:"minimised"`
 	OrigLen   int      `json:"orig_tape_len"`
 	Trace     []string `json:"trace"`
+	// Prelude: the runs (by seed, in order) the worker process had executed before this one. Code under test that keeps
+	// state in package variables carries it from one instance to the next inside a process; a violation that needs such
+	// carried-over state reproduces only after the same earlier runs. Empty for a run that reproduces on its own.
+	Prelude []uint64 `json:"prelude,omitempty"`
 }
 
 // WorkerOut is what one worker process reports.
@@ -172,6 +176,7 @@ func worker(t *testing.T, world string, sp *Spec) {
 	nthashes := map[string]bool{}
 	states := map[uint64]struct{}{}
 	seenViol := map[string]int{}
+	var history []uint64 // every execution this process has made so far, re-executions included
 	start := time.Now()
 	out.SeedFirst = seed0 + uint64(idx)
 	if sp.Cases > 0 {
@@ -189,6 +194,8 @@ func worker(t *testing.T, world string, sp *Spec) {
 		}
 		os.WriteFile(progress, []byte(strconv.FormatUint(seed, 10)), 0o644)
 		keep := out.Runs < 1
+		before := len(history)
+		history = append(history, seed)
 		var r RunResult
 		if timed {
 			r = RunTimed(t, sp.Mk, seed)
@@ -259,13 +266,20 @@ func worker(t *testing.T, world string, sp *Spec) {
 				seenViol[ck]++
 				// re-run with the trace kept
 				r2 := RunOne(t, sp.Mk, NewExplicitTape(seed, r.Tape), sp.Limits, true)
+				history = append(history, seed)
 				if r2.Hash != r.Hash {
 					out.Nondet = append(out.Nondet, fmt.Sprintf("seed=%d (violating run) %s vs %s", seed, r.Hash, r2.Hash))
 				}
-				out.Violations = append(out.Violations, mkReplay(world, sp, &r2))
+				rf := mkReplay(world, sp, &r2)
+				if r2.First() == nil { // the re-run came out clean: keep what the first execution saw
+					rf = mkReplay(world, sp, &r)
+				}
+				rf.Prelude = append([]uint64(nil), history[:before]...)
+				out.Violations = append(out.Violations, rf)
 			}
 		} else if recheck > 0 && k%recheck == 0 {
 			r2 := RunOne(t, sp.Mk, NewSeedTape(seed), sp.Limits, false)
+			history = append(history, seed)
 			out.Rechecked++
 			if r2.Hash != r.Hash {
 				out.Nondet = append(out.Nondet, fmt.Sprintf("seed=%d %s vs %s", seed, r.Hash, r2.Hash))
@@ -323,13 +337,19 @@ func tapeFor(rf *ReplayFile) *Tape {
 func replay(t *testing.T, world string, sp *Spec) {
 	rf := loadReplay()
 	var r RunResult
+	for _, sd := range rf.Prelude { // the earlier runs of the process this run was seen in (see ReplayFile.Prelude)
+		if pr := RunOne(t, sp.Mk, NewSeedTape(sd), sp.Limits, false); pr.Harness != "" {
+			fmt.Fprintf(os.Stderr, "harness error in prelude run %d: %s\n", sd, pr.Harness)
+			os.Exit(2)
+		}
+	}
 	if os.Getenv("VERIF_TIMED") != "" {
 		r = RunTimed(t, sp.Mk, rf.Seed)
 	} else {
 		r = RunOne(t, sp.Mk, tapeFor(&rf), sp.Limits, true)
 	}
 	out := mkReplay(world, sp, &r)
-	out.OrigSeed, out.Minimised, out.OrigLen = rf.OrigSeed, rf.Minimised, rf.OrigLen
+	out.OrigSeed, out.Minimised, out.OrigLen, out.Prelude = rf.OrigSeed, rf.Minimised, rf.OrigLen, rf.Prelude
 	if r.Harness != "" {
 		fmt.Fprintf(os.Stderr, "harness error: %s\n", r.Harness)
 		os.Exit(2)
